@@ -1,5 +1,6 @@
 import ModVerif.Drv.MainLoop
 import ModVerif.Drv.Pseudo
+import ModVerif.Drv.GenModule
 open ModVerif.Drv
 
-def main : IO Unit := runMain [("pseudo", Pseudo.handle)]
+def main : IO Unit := runMain [("pseudo", Pseudo.handle), ("gpseudo", GenModule.handlePseudo)]
